@@ -13,7 +13,7 @@ sys.path.insert(0, os.path.join(os.path.dirname(os.path.abspath(__file__)), ".."
 from gen_engine import dumps  # noqa: E402
 
 warnings.filterwarnings("ignore")
-LEAN_MODULES = ["KmipModel.Props.C06"]
+LEAN_MODULES = ["KmipModel.Props.C06", "KmipModel.Props.C06Plans"]
 RULE = ("(1) plan correspondence: every (algorithm, mode, padding, IV supplied/absent, AAD, tag length) tuple of the "
         "grid is sent to the real CryptographyEngine.encrypt/decrypt and to the Lean plan functions; accepted/rejected, "
         "IV generated, padding applied and block alignment must agree; padding bytes are compared byte for byte; "
@@ -609,6 +609,13 @@ def run(ctx):
         "plan_tuples": nplan, "plan_accepted": stats["accepted"], "plan_rejected": stats["rejected"],
         "decrypt_encrypt_roundtrips": stats["roundtrips"], "padding_cases": npad, "reference_comparisons": nref,
         "gcm_signature_freshness_checks": nsig, "traces_validated_against_impl": nplan + npad})
+    # M9b: the rest of the plumbing as plans (DeriveKey, MAC, Sign / SignatureVerify, asymmetric, key wrapping,
+    # creation) against the real CryptographyEngine / KmipEngine with recording stand-ins for the primitives
+    import crypto_plans_check
+    cp = crypto_plans_check.run(ctx, random.Random(ctx.seed * 7919 + 606))
+    ctx.coverage["crypto_plans"] = cp
+    ctx.coverage["evaluations"] += int(cp.get("plan_grid_points", 0) or 0)
+    ctx.coverage["traces_validated_against_impl"] += int(cp.get("plan_grid_points", 0) or 0)
 
 
 def search(ctx, broken):
@@ -616,6 +623,9 @@ def search(ctx, broken):
 
 
 def replay(ctx, rep):
+    if (rep.get("replay") or {}).get("kind") == "crypto-plan":
+        import crypto_plans_check
+        return crypto_plans_check.replay_case(rep)
     c2 = type(ctx)(ctx.pid, ctx.tier, rep.get("seed", ctx.seed), None)
     run(c2)
     return not c2.violations
